@@ -244,11 +244,15 @@ pub fn run(ctx: &mut Ctx) -> (String, Value, Vec<String>) {
         let vals: Vec<u64> = if quick { vec![0, 1, 5] } else { vec![0, 1, 2, 7] };
         let len = 10usize;
         let n = AtomicU64::new(0);
+        let nn = AtomicU64::new(0);
         let bad = Mutex::new(Vec::<(String, Value)>::new());
         (0..(vals.len() as u64).pow(len as u32)).into_par_iter().for_each(|idx| {
             let t: Vec<u64> = crate::props::uni::product_index(idx, vals.len(), len).into_iter().map(|k| vals[k]).collect();
             for max_n in [2usize, 6, 9, 10, 13] {
                 n.fetch_add(1, Ordering::Relaxed);
+                if t.iter().any(|x| *x != t[0]) {
+                    nn.fetch_add(1, Ordering::Relaxed);
+                }
                 let spec = CostSpec::CurveFromTrace { costs: t.clone(), max_n };
                 match catch(|| {
                     let c = spec.build();
@@ -267,7 +271,7 @@ pub fn run(ctx: &mut Ctx) -> (String, Value, Vec<String>) {
             }
         });
         evals += n.load(Ordering::Relaxed);
-        nontrivial += n.load(Ordering::Relaxed) / 2;
+        nontrivial += nn.load(Ordering::Relaxed);
         for (w, c) in bad.into_inner().unwrap() {
             ctx.violation("wcet::Curve::from_trace#undercounts-run", &w, "cost-trace", c);
         }
@@ -383,6 +387,7 @@ pub fn run(ctx: &mut Ctx) -> (String, Value, Vec<String>) {
     let alpha = alphabet();
     let hp: Vec<Vec<u64>> = if quick { vec![vec![2, 3, 5], vec![3, 4, 4, 7]] } else { vec![vec![2, 3, 5], vec![3, 4, 4, 7], vec![1, 2, 3], vec![4, 5, 9, 9, 10], vec![2, 3]] };
     let n = AtomicU64::new(0);
+    let nboth = AtomicU64::new(0);
     let bad = Mutex::new(Vec::<(String, String, Value)>::new());
     for pf in &hp {
         for len in 1..=depth {
@@ -391,6 +396,13 @@ pub fn run(ctx: &mut Ctx) -> (String, Value, Vec<String>) {
                 let sel = crate::props::uni::product_index(idx, alpha.len(), len);
                 let hist: Vec<Op> = sel.iter().map(|k| alpha[*k]).collect();
                 n.fetch_add(1, Ordering::Relaxed);
+                // non-trivial: the history queries both clones (the cache is actually shared)
+                let clone_of = |o: &Op| match o {
+                    Op::Cost(k, _) | Op::Least(k, _) | Op::Items(k, _) => *k,
+                };
+                if hist.iter().any(|o| clone_of(o) == 0) && hist.iter().any(|o| clone_of(o) == 1) {
+                    nboth.fetch_add(1, Ordering::Relaxed);
+                }
                 let got = catch(|| run_history(pf, &hist, true));
                 let want = catch(|| run_history(pf, &hist, false));
                 if got != want || got.is_err() {
@@ -429,11 +441,11 @@ pub fn run(ctx: &mut Ctx) -> (String, Value, Vec<String>) {
     }
     let nh = n.load(Ordering::Relaxed);
     evals += nh;
-    nontrivial += nh / 2;
+    nontrivial += nboth.load(Ordering::Relaxed);
     let cov = json!({
         "evaluations": evals,
         "distinct_nontrivial": nontrivial,
-        "rule": format!("(a) every cost trace of length <= {tl} over 0..={hi} x max_n 1..={mn}: every run length up to twice the trace, plus extrapolation arguments; every cost sequence of length 10 over three (thorough: four) values x five window widths; (b) laws for every scalar, multiframe vector (length <= 4 over 0..=3) and monotone sub-additive cumulative prefix, and for every (also non-monotone) cumulative vector of length <= 4/5 collected through FromIterator; (c) every query history up to depth {depth} over a 9-letter alphabet on two clones vs a fresh object per query; non-trivial = non-constant traces of length > 2 / vectors / prefixes / histories (half counted)"),
+        "rule": format!("(a) every cost trace of length <= {tl} over 0..={hi} x max_n 1..={mn}: every run length up to twice the trace, plus extrapolation arguments; every cost sequence of length 10 over three (thorough: four) values x five window widths; (b) laws for every scalar, multiframe vector (length <= 4 over 0..=3) and monotone sub-additive cumulative prefix, and for every (also non-monotone) cumulative vector of length <= 4/5 collected through FromIterator; (c) every query history up to depth {depth} over a 9-letter alphabet on two clones vs a fresh object per query; non-trivial = non-constant traces of length > 2 / vectors / prefixes / histories that query both clones"),
         "histories": nh,
         "samples": samples,
         "exhaustive": true,
